@@ -70,7 +70,11 @@ def main():
     prop = sys.argv[1]
     path = os.path.join(ROOT, "known_findings.json")
     data = json.load(open(path)) if os.path.exists(path) else {"findings": []}
-    have = {(f["property"], f["key"], f.get("witness_class")) for f in data["findings"]}
+    have = set()
+    for f in data["findings"]:
+        wc = f.get("witness_class")
+        for w in (wc if isinstance(wc, list) else [wc]):
+            have.add((f["property"], f["key"], w))
     for f in sorted(glob.glob(os.path.join(ROOT, "replays", prop, "*.json"))):
         w = json.load(open(f))
         oid = w["obligation"]
